@@ -14,6 +14,14 @@ Keys: C10[<clause>:<unit class>@<system class>]; for the electromagnetic atom cl
 system class is collapsed to cgs / mks / current / nocurrent (one defect site each).
 Each system is one task run in a freshly forked process (results merged in task order), so
 the outcome is deterministic for a seed and independent of cache state left by other systems.
+
+History section (lib_c10_history.py): sequences of 2-4 define / override / use steps executed in
+ONE process (systems re-defined under a used name with other base units / current unit /
+overrides, late overrides, two names side by side, same-named systems of two registries,
+in_cgs / in_mks around user systems).  After every step each outcome of the copy / in-place /
+Unit-level variant must equal what a fresh process computes for the system definition current at
+that step alone, and the variants must agree whatever the order they were primed in.
+Keys: C10[history:<kind>:<what differs>] and C10[history-variants:<kind>:<what differs>].
 """
 import math
 import multiprocessing as mp
@@ -23,6 +31,7 @@ if os.environ.get("PYTHONHASHSEED") != "0":     # set/dict iteration order of st
     os.execv(sys.executable, [sys.executable] + sys.argv)
 sys.path.insert(0, os.path.dirname(os.path.abspath(__file__)))
 from common import Run, replay_script, safe
+import lib_c10_history as HL
 
 import numpy as np
 import sympy
@@ -47,11 +56,17 @@ R = Run("C10",
         "random user systems; units: every symbol of default_unit_symbol_lut, every prefix on the 10 EM "
         "atoms, pinned + seeded random compounds (products/quotients/rational powers of 2-4 atoms); data: "
         "float/int scalar and array, float32/int32 arrays; non-trivial = (system, unit, data kind) distinct "
-        "and the unit is not already the system's unit for its dimension",
+        "and the unit is not already the system's unit for its dimension; histories: define / override / use "
+        "steps in one process (re-definition under a used name with other base units / current unit / overrides, "
+        "late overrides incl. base dimensions, two names side by side, in_cgs/in_mks around user clones, same-named "
+        "systems of two registries, registry default system) over a 42-unit panel (E&M atoms SI + Gaussian, E&M "
+        "compounds, mechanical, thermal, angle/luminous/log), each outcome compared with a fresh fork that saw only "
+        "the current definition, variants primed in rotating orders; non-trivial = a use step after an earlier step",
         "atoms x built-in systems x 6 data kinds exhaustive; compounds and user systems sampled (quick: "
         "~90 pinned + 150 random compounds, 10 pinned + 8 random user systems; thorough: 2500 random "
         "compounds, 60 random systems); base-unit spellings: every table atom of each base dimension x "
-        "symbol/alias/Unit/quantity; wrong-dimension base units: every slot x every table atom")
+        "symbol/alias/Unit/quantity; wrong-dimension base units: every slot x every table atom; histories: 59 "
+        "pinned (every combination of what differs) + 24 random (thorough: 400), 2-4 definitions each")
 
 C_CM = 2.99792458e10
 # (SI dimension, Gaussian dimension, SI canonical symbol, Gaussian canonical symbol,
@@ -926,6 +941,22 @@ def task_wrong_dimension(thorough):
                     USR.pop(name, None)
 
 
+def task_history(idx, H):
+    """one history = one process; references come from forks taken before the first step"""
+    problems, ncmp = HL.h_run(H)
+    for n, d, via, ureg, mode, off in HL.h_uses(H):
+        for ustr in H["panel"]:
+            C.case("C10[history|%d|%d|%s]" % (idx, n, ustr), nontrivial=n > (0 if d is None else 1))
+    tag = "%s:%s" % (H["kind"], H["what"])
+    for fam in ("history", "variants"):
+        ps = [p for p in problems if p[0] == fam]
+        if ps:
+            fail("C10[%s:%s]" % ("history" if fam == "history" else "history-variants", tag),
+                 "%s (%d of %d outcomes of this history differ; units %s)" % (
+                     ps[0][3], len(ps), ncmp, ", ".join(sorted({p[2] for p in ps})[:12])),
+                 HL.replay_for(H, fam))
+
+
 TASKS = []
 
 
@@ -973,6 +1004,11 @@ def main():
     TASKS.append((task_reregister, ()))
     TASKS.append((task_spellings, ()))
     TASKS.append((task_wrong_dimension, (thorough,)))
+    hists = HL.pinned_histories()
+    for i in range(400 if thorough else 24):
+        hists.append(HL.random_history(rng))
+    for i, H in enumerate(hists):
+        TASKS.append((task_history, (i, H)))
 
     ctx = mp.get_context("fork")
     with ctx.Pool(min(16, len(TASKS)), maxtasksperchild=1) as pool:
